@@ -2,6 +2,7 @@
 # tools/seedregress.sh [names...]: every stored seeded change is applied in a scratch worktree (/tmp/seedtest, PYTHONPATH
 # override - /repo is left alone) and the property's own quick check is run: prints the seeds that are NOT caught any more
 cd "$(dirname "$0")/.." || exit 2
+mkdir -p .work/evidence-changed-tree; export VERIF_EVIDENCE_DIR=$PWD/.work/evidence-changed-tree
 wt=/tmp/seedtest
 [ -d "$wt" ] || git -C /repo worktree add --detach "$wt" HEAD >/dev/null 2>&1
 names="$*"; [ -z "$names" ] && names=$(ls seeded)
